@@ -126,6 +126,9 @@ int main(int argc, char** argv)
         std::vector<std::string> order;
         for (auto& pr : it->second)
         {
+            // "bb" plan lines may be addressed to one register width (imm = register bytes, 0 = every width)
+            if (kind[0] == 'b' && kind[1] == 'b' && imm != 0 && reg[pr.first].regbytes != imm)
+                continue;
             static vd::Out o;
             o.len = 0;
             std::string key;
